@@ -427,6 +427,16 @@ func projectRecursive(at *AttributeExpr, vat *NamedAttributeExpr, view string, s
 		ar.ElemType = pat
 	}
 
+	if mp := AsMap(at.Type); mp != nil {
+		// map values are rendered like array elements: under the view set on the
+		// attribute, "default" otherwise
+		pat, err := projectRecursive(mp.ElemType, vat, view, seen)
+		if err != nil {
+			return nil, err
+		}
+		mp.ElemType = pat
+	}
+
 	return at, nil
 }
 
